@@ -1070,7 +1070,9 @@ where
         reply_receiver: CmdReplyReceiver,
         key_num: usize,
     ) -> TaskResult {
-        let keys: Vec<_> = (3..3 + key_num)
+        // `numkeys` is client input: never walk past the arguments that are really there.
+        let cmd_len = cmd_ctx.get_cmd().get_command_len().unwrap_or(0);
+        let keys: Vec<_> = (3..cmd_len.min(key_num.saturating_add(3)))
             .filter_map(|i| cmd_ctx.get_cmd().get_command_element(i))
             .map(|b| b.to_vec())
             .collect();
